@@ -542,7 +542,9 @@ func (vc *FuncVC) builtin(b *ssa.BasicBlock, ins ssa.Instruction, bi *ssa.Builti
 				set(vc.define(resV.Name(), App(SInt, "slen", v)))
 			}
 		case *types.Map:
-			set(vc.define(resV.Name(), vc.mapLen(st, v, t)))
+			ml := vc.define(resV.Name(), vc.mapLen(st, v, t))
+			set(ml)
+			vc.assume(reach, And(App(SBool, "<=", IntLit(0), ml), App(SBool, "<=", ml, BigLit("1152921504606846976"))))
 		case *types.Basic:
 			set(vc.define(resV.Name(), App(SInt, "str.len", v)))
 		case *types.Array:
